@@ -19,7 +19,7 @@ MAC_CLASSES = ["valid", "zero", "random", "absent", "short", "long", "wrong-key"
 SYS = (1, 3, 6, 1, 2, 1, 1, 5, 0)
 
 
-def forge(cfg, req, mac, flag_auth, flag_priv, body, seed, walk=False, form="consistent"):
+def forge(cfg, req, mac, flag_auth, flag_priv, body, seed, walk=False, form="consistent", reportable=False):
     """Build the forged reply."""
     if body == "GetResponse":
         oid = req.oids[0] if req.oids else SYS
@@ -29,7 +29,7 @@ def forge(cfg, req, mac, flag_auth, flag_priv, body, seed, walk=False, form="con
     else:
         pdu = rb.build_pdu(rb.PDU_REPORT, req.request_id, 0, 0, [((1, 3, 6, 1, 6, 3, 15, 1, 1, 5, 0), values.v_unsigned("counter32", 1).tlv)])
     scoped = rb.build_scoped(cfg.engine_id, b"", pdu)
-    flags = (1 if flag_auth else 0) | (2 if flag_priv else 0)
+    flags = (1 if flag_auth else 0) | (2 if flag_priv else 0) | (4 if reportable else 0)
     data = scoped
     priv_params = b""
     encrypt = flag_priv if form == "consistent" else (not flag_priv)
@@ -132,7 +132,7 @@ def run_case(case, worlds):
     if o.kind != "ok":
         raise drivers.MachineryError("send failed %r" % (o.brief(),))
     req = drivers.open_request(cfg, w.take_request(), strict=False, check_mac=False)
-    forged = forge(cfg, req, case["mac"], case["flag_auth"], case["flag_priv"], case["body"], case.get("seed", 1), walk=op in ("getnext", "getbulk"), form=case.get("form", "consistent"))
+    forged = forge(cfg, req, case["mac"], case["flag_auth"], case["flag_priv"], case["body"], case.get("seed", 1), walk=op in ("getnext", "getbulk"), form=case.get("form", "consistent"), reportable=case.get("reportable", False))
     w.inject(forged)
     out1 = w.recv(op, it)
     # the genuine reply afterwards
@@ -180,7 +180,7 @@ def work(chunk):
         macc = case["mac"] if not case["mac"].startswith("bit") else "bitflip"
         if macc.startswith("xor") or macc.startswith("sum"):
             macc = "cancelling-" + macc[:3]
-        sig_tail = ("flags-body-mismatch/" if case.get("form", "consistent") != "consistent" else "") + "%s/%s-%s/mac=%s/auth=%d/priv=%d/%s" % (
+        sig_tail = ("flags-body-mismatch/" if case.get("form", "consistent") != "consistent" else "") + ("reportable-flag/" if case.get("reportable") else "") + "%s/%s-%s/mac=%s/auth=%d/priv=%d/%s" % (
             case["op"],
             drivers.AUTH_NAMES[cfg.auth],
             drivers.PRIV_NAMES[cfg.priv],
@@ -263,6 +263,8 @@ def run_route(case):
     real_eid = cfg0.engine_id
     if route == "failed-set-keys":
         return run_failed_set_keys(case)
+    if route == "after-signed-stale":
+        return run_after_signed_stale(case)
     report_eid = b"" if case["report_eid"] == "empty" else real_eid
     if route == "raw-empty-eid":
         cfg = EmptyEidCfg.from_desc(case["cfg"])
@@ -317,6 +319,32 @@ def run_route(case):
         forged = forged_with_key(cfg, q.msg_id, rid, q.engine_id, q.boots, q.time, guess_key(cfg, case["key"], q.engine_id), bool(cfg.priv) and case["encrypt"])
         w.inject(forged)
         out = w.recv("get")
+        return classify_out(out, "get"), out
+    finally:
+        w.close()
+
+
+def run_after_signed_stale(case):
+    """Within one receive call: first a genuinely signed message that is skipped for another reason (late duplicate
+    with a stale msgID / foreign request-id), then a reply with no authentication at all and matching ids."""
+    mod, fast = drivers.subject()
+    cfg = Cfg.from_desc(case["cfg"])
+    w = drivers.SplitWorld(cfg)
+    try:
+        o = w.send("get", rb.oid_str(SYS))
+        req = drivers.open_request(cfg, w.take_request(), strict=False, check_mac=False)
+        if case["key"] == "stale-msgid":
+            stale = drivers.reply_for(cfg, req, [(SYS, rb.enc_octets(b"STALE"))], msg_id=(req.msg_id + 1) & 0x7FFFFFFF)
+        else:
+            stale = drivers.reply_for(cfg, req, [(SYS, rb.enc_octets(b"STALE"))], request_id=(req.request_id + 1) & 0x7FFFFFFF)
+        pdu = rb.build_pdu(rb.PDU_RESPONSE, req.request_id, 0, 0, [(SYS, rb.enc_octets(b"FORGED"))])
+        forged = rb.build_v3(req.msg_id, 0, rb.build_usm(cfg.engine_id, req.boots, req.time, cfg.user, b"", b""), rb.build_scoped(cfg.engine_id, b"", pdu))
+        for k in range(case.get("stale_count", 1)):
+            w.agent.sendto(stale, w.addr)
+        w.inject(forged)
+        out = w.recv("get")
+        if classify_out(out, "get") == "skipped" and not w.client_queue_empty():
+            out = w.recv("get")
         return classify_out(out, "get"), out
     finally:
         w.close()
@@ -503,6 +531,9 @@ def gen_routes(tier):
                     for encrypt in (True, False) if priv else (False,):
                         yield {"kind": "route", "cfg": cfg.describe(), "route": route, "report_eid": report_eid, "key": key, "encrypt": encrypt}
             yield {"kind": "route", "cfg": cfg.describe(), "route": "in-flight", "report_eid": "real", "key": "none", "encrypt": False}
+            for which in ("stale-msgid", "stale-rid"):
+                for cnt in (1, 2):
+                    yield {"kind": "route", "cfg": cfg.describe(), "route": "after-signed-stale", "report_eid": "real", "key": which, "encrypt": False, "stale_count": cnt}
             for how in ("authlen", "privlen", "privempty", "privalg"):
                 if not priv and how != "authlen":
                     continue
@@ -534,6 +565,9 @@ def gen_cases(tier):
                         if mac.startswith("bit") and not thorough and (op != "get" or body != "GetResponse") and int(mac[3:]) % 13:
                             continue
                         yield {"cfg": cfg.describe(), "op": op, "body": body, "flag_auth": flag_auth, "flag_priv": flag_priv, "mac": mac}
+                        if mac in ("valid", "zero", "absent", "random") and op in ("get", "refresh"):
+                            # the reportableFlag bit (0x04) of msgFlags set on the reply: it changes nothing
+                            yield {"cfg": cfg.describe(), "op": op, "body": body, "flag_auth": flag_auth, "flag_priv": flag_priv, "mac": mac, "reportable": True}
                         if priv and mac in ("valid", "zero", "absent") :
                             yield {"cfg": cfg.describe(), "op": op, "body": body, "flag_auth": flag_auth, "flag_priv": flag_priv, "mac": mac, "form": "mismatch"}
     # MACs whose differences from the valid one cancel out (pairs / triples of octets)
@@ -571,7 +605,7 @@ def run(tier):
     rec = common.Recorder(PROPERTY, tier, LEVEL, MODULE)
     rec.rule = (
         "otherwise-matching reply x MAC in {valid, zero, random, wrong key, absent, short, long, each of the 96 single-bit flips, octet pairs / triples whose differences cancel under XOR or sum} x auth flag x priv flag (ciphertext / plaintext) x "
-        "{GetResponse, Report} x {MD5,SHA1} x {none,DES,AES} x pending operation, each followed by the genuine reply; after engine-id discovery by 4 routes (socket created without engine id / set_keys after discovery x Report carrying the real or an EMPTY engine id; keys installed while a request sent under the anonymous user is in flight, then a reply with msgFlags 0; a refused set_keys on a session holding keys, then a reply under a guessable key; genuine replies of 10..3900-octet values with one octet changed at offsets spread over the datagram) "
+        "{GetResponse, Report} x {MD5,SHA1} x {none,DES,AES} x pending operation, each followed by the genuine reply; after engine-id discovery by 4 routes (socket created without engine id / set_keys after discovery x Report carrying the real or an EMPTY engine id; keys installed while a request sent under the anonymous user is in flight, then a reply with msgFlags 0; a refused set_keys on a session holding keys, then a reply under a guessable key; a genuinely signed but non-matching message followed, within the same receive call, by a reply with no authentication; the reportableFlag bit set on forged replies; genuine replies of 10..3900-octet values with one octet changed at offsets spread over the datagram) "
         "a reply authenticated (and encrypted) under each key anybody can compute {all-zero, zero master localized to the engine id / to the empty id, user name}; public clients with the first discovery datagram lost, "
         "refresh retried, then a reply with msgFlags 0. Non-trivial: every case (all are distinct forgeries)."
     )
